@@ -447,4 +447,35 @@ theorem kittyKey_rejected (c : List Nat) (hc : Digits c) (hn : clampDec c ∉ [2
     · rw [if_neg (by omega)]
   rw [hk]
 
+/-- `ESC [ code ; modifiers u`: the modifier word is the field minus one, cut to 32 bits and masked with
+    `KeyMod::ALL` (511) — whatever the field (513, 2^16, 2^32 ± 1, values clamped at `usize::MAX`), no bit
+    outside the nine defined flags -/
+theorem kittyKey_modifiers (c ms : List Nat) (hc : Digits c) (hms : Digits ms) (h32 : clampDec c ≤ 4294967295)
+    (hs : SurfModel.Payload.isScalar (clampDec c) = true) (hp : ¬ (57344 ≤ clampDec c ∧ clampDec c ≤ 63743))
+    (hn : clampDec c ∉ [27, 13, 9, 127]) :
+    decodeKittyKeyboard ([27, 91] ++ ((c ++ 59 :: ms) ++ [117])) =
+      .ok (some (.key ⟨.char (clampDec c), if clampDec ms > 1 then (clampDec ms - 1) % 4294967296 % 512 else 0⟩)) := by
+  unfold decodeKittyKeyboard
+  rw [sub?_ok _ _ (by simp)]
+  simp only
+  rw [slice?_body [27, 91] (c ++ 59 :: ms) 117 2 rfl]
+  simp only
+  have hhead : (c ++ 59 :: ms).head? ≠ some 63 := by
+    cases c with
+    | nil => simp
+    | cons a r =>
+      have := hc a (by simp)
+      simp only [List.cons_append, List.head?_cons, ne_eq, Option.some.injEq]
+      omega
+  rw [if_neg hhead, splitBy_append_sep 59 c ms (digits_no 59 sep59 c hc), splitBy_no_sep 59 ms (digits_no 59 sep59 ms hms)]
+  simp only
+  rw [numbersDecode_one_digits 58 (by omega) c hc, numbersDecode_one_digits 58 (by omega) ms hms]
+  simp only [List.head?_cons, Option.getD_some]
+  simp only [List.mem_cons, List.not_mem_nil, or_false, not_or] at hn
+  have hk : keyboardDecodeKey (clampDec c) = some (.char (clampDec c)) := by
+    unfold keyboardDecodeKey
+    rw [if_neg hn.1, if_neg hn.2.1, if_neg hn.2.2.1, if_neg hn.2.2.2, if_neg (by omega), if_pos ⟨h32, hp⟩, if_pos hs]
+  rw [hk]
+  simp
+
 end SurfProofs.PayloadNumeric
